@@ -12,7 +12,7 @@ SEMS = ['standard', 'output-robustness', 'input-robustness', 'output-vacuity', '
 class C06(Check):
     PID = 'C06'
     RULE = ('seeded random formulas (predicates mixing input and output variables, constant-only predicates, xor/iff inside predicate operands) x 5 semantics '
-            'x every input/output assignment of <= 3 variables x {offline, online} x {combined, dedicated} specification constructors; implementation '
+            'x every input/output assignment of <= 3 variables x {offline, online, pastified online for bounded-future formulas} x {combined, dedicated} specification constructors; implementation '
             'compared with rho under the property\'s own definition of insensitive predicates (pk_spec) and with the model of the IA visitors (pk_impl); '
             'non-trivial = a predicate is insensitive under the drawn assignment for a non-standard semantics; distinct by (formula, semantics, io, data)')
 
@@ -53,7 +53,12 @@ class C06(Check):
         io = ' '.join(str(b) for b in c['io'])
         w = fml.trace_sx(c['cols'])
         return ['(off (ia %s (%s)) %s %d %s)' % (c['sem'], io, fml.to_sx(c['f']), c['n'], w),
-                '(off (iaspec %s (%s)) %s %d %s)' % (c['sem'], io, fml.to_sx(c['f']), c['n'], w)]
+                '(off (iaspec %s (%s)) %s %d %s)' % (c['sem'], io, fml.to_sx(c['f']), c['n'], w),
+                '(pastpk (iaspec %s (%s)) %s %d %s)' % (c['sem'], io, fml.to_sx(c['f']), c['n'], w)]
+
+    def pastified(self, c):
+        """bounded-future formulas also go through pastify() + the online monitor"""
+        return fml.has_future(c['f']) and not (fml.ops(c['f']) & fml.UNB_FUTURE)
 
     def impl_cases(self, c):
         io = {fml.VARS[i]: ('input' if c['io'][i] else 'output') for i in range(c['nv'])}
@@ -63,6 +68,8 @@ class C06(Check):
             out.append(online_case(c['f'], c['cols'], c['times'], c['nv'], **kw))
         if c['sem'] == 'standard':
             out.append(offline_case(c['f'], c['cols'], c['times'], c['nv'], semantics='standard', ctor=c.get('ctor', 'combined')))
+        if self.pastified(c):
+            out.append(online_case(c['f'], c['cols'], c['times'], c['nv'], pastify=True, **kw))
         return out
 
     def judge(self, c, mlines, ires):
@@ -98,6 +105,16 @@ class C06(Check):
                 return 'violation', dict(det, observed={'with_io': off, 'without_io': noio}, note='STANDARD semantics depends on io declarations')
         if impl_model != spec:
             return 'model-vs-spec', det
+        if self.pastified(c):
+            pm = parse_fields(mlines[2])
+            if 'ERROR' not in pm and pm['GUARD'] == ['1'] and pm['EXACT'] == ['1']:
+                pspec = [None if x == '_' else expect_vals([fml.parse_val(x)])[0] for x in pm['SPEC']]
+                pspec = json.loads(json.dumps(pspec))
+                obs = sigs[-1]
+                bad = [i for i in range(len(obs)) if pspec[i] is not None and obs[i] != pspec[i]]
+                if bad:
+                    return 'violation', dict(det, expected={'source': 'rho under pk_spec of the original formula on the samples seen so far, at i - horizon', 'values': pspec},
+                                             observed={'pastified online': obs, 'differs_at': bad})
         return 'ok', None
 
     def nontrivial(self, c):
